@@ -31,7 +31,7 @@ SOURCES = [
     "binarydiff.c", "output.c", "input.c", "simulationarchive.c", "transformations.c",
 ]
 
-BASE = ["-std=c99", "-fstrict-aliasing", "-Wno-unknown-pragmas", "-w", "-DLIBREBOUND", "-D_GNU_SOURCE",
+BASE = ["-std=c99", "-fstrict-aliasing", "-Wno-unknown-pragmas", "-w", "-Werror=implicit-function-declaration", "-DLIBREBOUND", "-D_GNU_SOURCE",
         "-DSERVER", "-fPIC", "-DGITHASH=verif"]
 VARIANTS = {
     "rel": ("gcc", BASE + ["-O3"], []),
